@@ -49,7 +49,7 @@ def BOUNDS(tier):
 
 def REQUIRED_COVER(tier):
     return {'generic:accept', 'generic:boc', 'generic:nested', 'header:accept', 'account:accept', 'account:extra-currency', 'account:pruned-account', 'mut:expected-hash', 'mut:data-bit',
-            'mut:drop-ref', 'mut:dup-ref', 'mut:swap-ref', 'mut:pruned-hash', 'mut:pruned-depth', 'mut:pruned-level', 'mut:root-type', 'mut:root-hash', 'mut:claimed-pruned', 'mut:claimed-other',
+            'mut:drop-ref', 'mut:dup-ref', 'mut:swap-ref', 'mut:pruned-hash', 'mut:pruned-depth', 'mut:pruned-level', 'mut:pruned-raw', 'mut:root-type', 'mut:root-hash', 'mut:claimed-pruned', 'mut:claimed-other',
             'mut:claimed-flip', 'mut:address', 'mut:block-id', 'mut:roots', 'mut:state-bit', 'mut:block-bit'}
 
 
@@ -331,6 +331,68 @@ def case_generic(rec, name, nmax):
         must_reject(rec, tag, f'{name}: {desc}', lambda lm=lm: check_proof(lm, H), 'case_generic', args, 'generic')
         if blockish and tag != 'mut:root-type' and tag != 'mut:root-hash' and len(lm.refs) == 1:
             must_reject(rec, tag, f'{name} (header check): {desc}', lambda lm=lm: check_block_header_proof(lm[0], H, True), 'case_generic', args, 'header')
+    case_raw_pruned(rec, name, lp, proof, H, blockish, args)
+
+
+def lib_rebuild(lc, path, new):
+    """library-side twin of rebuild(): the tree lc with the cell at `path` replaced by `new`; ancestors re-made with the plain constructor,
+    Merkle cells over their NEW children (valid Merkle cells).  Raises whatever the library raises (then the fault is refused at construction)."""
+    from pytoniq_core.boc import Cell
+    from pytoniq_core.boc.tvm_bitarray import TvmBitarray
+    if not path:
+        return new
+    refs = list(lc.refs)
+    refs[path[0]] = lib_rebuild(refs[path[0]], path[1:], new)
+    bits = lc.bits.to01()
+    if lc.type_ in (3, 4):
+        lvl = 1
+        body = ''.join(format(b, '08b') for r in refs for b in r.get_hash(0)) + ''.join(format(r.get_depth(0), '016b') for r in refs)
+        bits = bits[:8] + body
+    ba = TvmBitarray(1023)
+    ba.extend(bits)
+    return Cell(ba, refs, lc.type_)
+
+
+def raw_pruned_mutants(c):
+    """faults in the RAW data of a pruned-branch cell that the reference model would not even build: every bit of the type and level-mask
+    bytes, a missing / shortened depth field, trailing data"""
+    bits = c.bits
+    for i in range(16):
+        yield f'header bit {i} flipped ({"type" if i < 8 else "level mask"} byte)', flip(bits, i)
+    n = bin(c.mask).count('1')
+    yield 'depth fields missing', bits[:16 + 256 * n]
+    yield 'last depth byte missing', bits[:-8]
+    yield 'last bit missing', bits[:-1]
+    for extra in ('1', '0' * 8, '10' * 8, '0' * 272):
+        if len(bits) + len(extra) <= 1023:
+            yield f'{len(extra)} trailing bits', bits + extra
+
+
+def case_raw_pruned(rec, name, lp, proof, H, blockish, args):
+    """sixth session: the pruned branches of an accepted proof, damaged in their raw data, must not be accepted"""
+    from pytoniq_core.boc import Cell
+    from pytoniq_core.boc.tvm_bitarray import TvmBitarray
+    from pytoniq_core.proof.check_proof import check_proof, check_block_header_proof
+    for path, c in walk(proof.refs[0]):
+        if not (c.special and c.type == RC.PRUNED):
+            continue
+        for desc, bits in raw_pruned_mutants(c):
+            rec.state(('raw-pruned', name, path, desc))
+            rec.covered('mut:pruned-raw')
+            try:
+                ba = TvmBitarray(1023)
+                ba.extend(bits)
+                # the cell an exotic-flagged descriptor with this data denotes: its type is its first data byte (as the BoC reader takes it)
+                t = int(bits[:8], 2)
+                bad = Cell(ba, [], t - 256 if t >= 128 else t)
+                lm = lib_rebuild(lp, (0,) + path, bad)
+            except Exception:
+                rec.trans()
+                rec.outcome('unconstructible')
+                continue
+            must_reject(rec, 'mut:pruned-raw', f'{name}: pruned branch at {path}: {desc}', lambda lm=lm: check_proof(lm, H), 'case_generic', args, 'generic')
+            if blockish and len(lm.refs) == 1:
+                must_reject(rec, 'mut:pruned-raw', f'{name} (header check): pruned branch at {path}: {desc}', lambda lm=lm: check_block_header_proof(lm[0], H, True), 'case_generic', args, 'header')
 
 
 def shard_generic(rec, nmax, part, parts):
